@@ -58,6 +58,15 @@ Theorem C05_final_out_trunc : forall calc, 0 <= calc -> dtrunc_int calc * P <= c
 Proof. exact final_out_trunc. Qed.
 Print Assumptions C05_final_out_trunc.
 
+(* a step that stops short of its target consumes at most what is left (whole-unit rounding is
+   capped), so its fee charge is defined and non-negative: the swap helper's explicit panic is dead *)
+Theorem C05_partial_step_never_overcharges : forall a rem fee,
+  0 <= fee -> 0 <= rem -> in_range rem = true -> 0 <= a ->
+  exists fc, fee_charge_out_given_in false (if rem <? a then rem else a) rem fee = Some fc /\
+             0 <= fc /\ (if rem <? a then rem else a) + fc <= rem.
+Proof. exact fee_charge_not_reached_defined. Qed.
+Print Assumptions C05_partial_step_never_overcharges.
+
 (* The whole-swap statements of the property — output <= exact curve and within the stated bound,
    input >= exact, monotone output, no round-trip profit, price direction and limits — are NOT proved
    here over the multi-bucket loop (the base-side amounts go through three half-even roundings whose
